@@ -117,6 +117,12 @@ func c14Run(c *h.Ctx) {
 		if i%16 == 5 { // long components / long names (beyond any fixed-size fast path)
 			a = gen.Name(r, 1+r.Intn(12), []int{40, 130, 300}[r.Intn(3)])
 		}
+		if i%64 == 9 { // deep names: more components than any table or parser would pre-size for
+			a = enc.Name{}
+			for k := []int{31, 32, 33, 34, 40, 64, 65, 70}[r.Intn(8)]; k > 0; k-- {
+				a = append(a, gen.Comp(r, 3))
+			}
+		}
 		b := gen.Near(r, a)
 		var d enc.Name
 		if r.Intn(2) == 0 {
@@ -148,6 +154,12 @@ func c14Run(c *h.Ctx) {
 	for i := 0; i < nURI; i++ {
 		id := fmt.Sprintf("uri-%d", i)
 		n := gen.Name(r, 5, 10)
+		if i%200 == 7 { // deep names
+			n = enc.Name{}
+			for k := []int{31, 32, 33, 34, 40, 64, 65, 70}[r.Intn(8)]; k > 0; k-- {
+				n = append(n, gen.Comp(r, 3))
+			}
+		}
 		if !c.Case(id) {
 			continue
 		}
